@@ -193,4 +193,37 @@ package prometheus
 //@   props C18
 //@   requires validUDPSM(c)
 //@ func asnLabel
-//@   props C18 C20
+//@   props C18
+
+// ---------------------------------------------------------------------------
+// Information flow (C20): client-address material never reaches a metric name or label.
+// Every function of this package is scanned, not only those under contract.
+// ---------------------------------------------------------------------------
+
+//@ tainted scan
+//@ tainted field tcpConnMetrics.clientAddr
+//@ tainted field udpConnMetrics.clientAddr
+//@ tainted field IPKey.ip
+//@ tainted call net.Conn.RemoteAddr
+//@ tainted call transport.StreamConn.RemoteAddr
+//@ tainted param (*serviceMetrics).AddUDPNatEntry.clientAddr
+//@ tainted param (*serviceMetrics).getIPInfoFromAddr.addr
+//@ tainted param newUDPConnMetrics.clientAddr
+//@ tainted param toIPKey.addr
+//@ declassify ipinfo.GetIPInfoFromAddr
+//@ declassify ipinfo.GetIPInfoFromIP
+//@ declassify prometheus.(*serviceMetrics).getIPInfoFromAddr
+//@ sink prometheus.(*CounterVec).WithLabelValues
+//@ sink prometheus.(*HistogramVec).WithLabelValues
+//@ sink prometheus.(*GaugeVec).WithLabelValues
+//@ sink prometheus.ObserverVec.WithLabelValues
+//@ sink prometheus.(*CounterVec).With
+//@ sink prometheus.(*CounterVec).CurryWith
+//@ sink prometheus.(*HistogramVec).CurryWith
+//@ sink prometheus.NewDesc
+//@ sink prometheus.MustNewConstMetric
+//@ sink prometheus.NewCounterVec
+//@ sink prometheus.NewHistogramVec
+//@ sink prometheus.NewGaugeVec
+//@ sink prometheus.NewCounter
+//@ sink prometheus.NewGauge
